@@ -934,6 +934,74 @@ theorem buildDoc_none (d : Dom) (h : Hdr) (vs : List Vec) (r : VtiResult)
               simp only [hp, hc, hpc, hcol, Except.map, pure, Except.pure, bind, Except.bind, Bool.false_eq_true, if_false] at hr
               exact key (some ps) (some as) hr
 
+/-! ### iteration file names -/
+
+theorem parseDecAux_zeros (k : Nat) (rest : Bytes) : parseDecAux (List.replicate k 48 ++ rest) 0 = parseDecAux rest 0 := by
+  induction k with
+  | zero => simp
+  | succ k ih =>
+    simp only [List.replicate_succ, List.cons_append, parseDecAux]
+    rw [if_pos (by decide)]
+    simpa using ih
+
+theorem parseDecAux_natDecPad (w n : Nat) : parseDecAux (natDecPad w n) 0 = some n := by
+  unfold natDecPad
+  rw [parseDecAux_zeros]
+  have h := parseDec_natDec n
+  unfold parseDec at h
+  split at h
+  · cases h
+  · exact h
+
+theorem natDecPad_inj (w i j : Nat) (h : natDecPad w i = natDecPad w j) : i = j := by
+  have hi := parseDecAux_natDecPad w i
+  rw [h, parseDecAux_natDecPad] at hi
+  exact (Option.some.inj hi).symm
+
+theorem natDecPad_digits (w n : Nat) : ∀ c ∈ natDecPad w n, 48 ≤ c.toNat ∧ c.toNat ≤ 57 := by
+  intro c hc
+  simp only [natDecPad, List.mem_append, List.mem_replicate] at hc
+  rcases hc with ⟨_, rfl⟩ | hc
+  · decide
+  · exact natDec_digits n c hc
+
+theorem count_dot_natDecPad (w n : Nat) : (natDecPad w n).count 46 = 0 := by
+  rw [List.count_eq_zero]
+  intro hm
+  have := natDecPad_digits w n 46 hm
+  revert this; decide
+
+theorem iterName_inj (saveto : Bytes) (i j : Nat) (h : iterName saveto false i = iterName saveto false j) : i = j := by
+  simp only [iterName, Bool.false_eq_true, if_false] at h
+  have h1 := List.append_cancel_left h
+  simp only [List.cons.injEq, true_and] at h1
+  exact natDecPad_inj 4 i j (List.append_cancel_right h1)
+
+theorem vtiFilename_cases (f g : Bytes) (h : vtiFilename f = vtiFilename g) :
+    f = g ∨ f = g ++ litDotVti ∨ g = f ++ litDotVti := by
+  unfold vtiFilename at h
+  split at h <;> split at h
+  · exact Or.inl h
+  · exact Or.inr (Or.inl h)
+  · exact Or.inr (Or.inr h.symm)
+  · exact Or.inl (List.append_cancel_right h)
+
+theorem iterName_ne_append (saveto : Bytes) (i j : Nat) :
+    iterName saveto false i ≠ iterName saveto false j ++ litDotVti := by
+  intro h
+  have hc := congrArg (List.count 46) h
+  simp only [iterName, Bool.false_eq_true, if_false, List.count_append, List.count_cons, count_dot_natDecPad] at hc
+  have : List.count (46 : UInt8) litDotVti = 1 := by decide
+  rw [this] at hc
+  omega
+
+theorem finalName_inj (saveto : Bytes) (i j : Nat)
+    (h : vtiFilename (iterName saveto false i) = vtiFilename (iterName saveto false j)) : i = j := by
+  rcases vtiFilename_cases _ _ h with h | h | h
+  · exact iterName_inj saveto i j h
+  · exact absurd h (iterName_ne_append saveto i j)
+  · exact absurd h (iterName_ne_append saveto j i)
+
 /-! ### concrete data for the non-vacuity examples of `Props/C20.lean` -/
 
 /-- a concrete document: 2×1 elements, a 3-component cell array and a point array -/
